@@ -6,7 +6,7 @@ import random
 import canon
 import core
 
-COMP_PARSE, COMP_TOKENS, COMP_POPS, COMP_QOPS = 10, 11, 12, 13
+COMP_PARSE, COMP_TOKENS, COMP_POPS, COMP_QOPS, COMP_IOPS = 10, 11, 12, 13, 14
 
 # one representative per byte class (three data bytes so that value-dependent decoding is reached)
 ALPHABET = [0x00, 0x4a, 0x7f, 0x90, 0xc5, 0xe3, 0xf0, 0xf1, 0xf2, 0xf3, 0xf4, 0xf6, 0xf7, 0xf8, 0xf9, 0xfe, 0xff]
@@ -67,6 +67,41 @@ def oracle_c04(stream):
     other = [b for m in ms if m.bytes()[0] < 0xf8 for b in m.bytes()]
     if not is_subseq(other, [b for b in stream if b < 0xf8]):
         return ('subsequence', 'parse_all(%r): message bytes %r are not a subsequence of the input' % (stream, other))
+    # the same messages whichever way the parser is read: get_message() until None, a loop that is left early and resumed, byte-wise feeding
+    want = msgs_out(ms)
+    try:
+        p = mido.Parser()
+        p.feed(list(stream))
+        got = []
+        while True:
+            m = p.get_message()
+            if m is None:
+                break
+            got.append(m)
+        if msgs_out(got) != want:
+            return ('route:get_message', 'feed + get_message() gave %d messages, parse_all %d, for %r' % (len(got), len(ms), stream[:60]))
+        p = mido.Parser()
+        p.feed(list(stream))
+        got = []
+        for m in p:
+            got.append(m)
+            break
+        got += list(p)
+        if msgs_out(got) != want:
+            return ('route:resumed-loop', 'a loop left after one message and resumed gave %d messages, parse_all %d, for %r' % (len(got), len(ms), stream[:60]))
+        if len(stream) <= 64:
+            p = mido.Parser()
+            got = []
+            for b in stream:
+                p.feed_byte(b)
+                m = p.get_message()
+                if m is not None:
+                    got.append(m)
+            got += list(p)
+            if msgs_out(got) != want:
+                return ('route:feed_byte', 'feed_byte + get_message gave %r, parse_all %r' % (msgs_out(got), want))
+    except Exception as e:  # noqa: BLE001
+        return ('raises:' + type(e).__name__, 'reading the parser for %r raised %r' % (stream[:60], e))
     return None
 
 
@@ -192,6 +227,81 @@ def random_pops(rng, stream=None):
     return case
 
 
+def impl_iops(case):
+    """histories with ONE live iterator kept across other calls: 6 = it = iter(parser), 7 = next(it) (None when it stops)"""
+    import mido
+    p = mido.Parser()
+    out, fed, got, fail, it = [], [], [], None, None
+    i = 0
+    try:
+        while i < len(case):
+            k = case[i]
+            if k == 0:
+                n = case[i + 1]; chunk = case[i + 2:i + 2 + n]; i += 2 + n
+                p.feed(chunk); fed += chunk; out += [0]
+            elif k == 1:
+                p.feed_byte(case[i + 1]); fed.append(case[i + 1]); i += 2; out += [0]
+            elif k == 2:
+                m = p.get_message(); i += 1
+                out += [1, 0] if m is None else [1, 1] + canon.msg_ints(m)
+                got += [m] if m is not None else []
+            elif k == 3:
+                out += [2, p.pending()]; i += 1
+            elif k == 4:
+                ms = list(p); out += [3] + msgs_out(ms); got += ms; i += 1
+            elif k == 5:
+                ms = list(itertools.islice(iter(p), case[i + 1])); out += [3] + msgs_out(ms); got += ms; i += 2
+            elif k == 6:
+                it = iter(p); out += [0]; i += 1
+            else:
+                i += 1
+                if it is None:
+                    out += [1, 0]
+                else:
+                    pend = p.pending()
+                    try:
+                        m = next(it)
+                        out += [1, 1] + canon.msg_ints(m); got.append(m)
+                    except StopIteration:
+                        out += [1, 0]
+        rest = list(copy.deepcopy(p))
+        out += [-9] + msgs_out(rest)
+        if fail is None:
+            want = mido.parser.parse_all(fed)
+            if msgs_out(want) != msgs_out(got + rest):
+                fail = ('fifo', 'history %r with a live iterator: retrieved+pending = %r but parse_all of the fed bytes = %r' % (case, got + rest, want))
+    except Exception as e:  # noqa: BLE001
+        out = [-1, core.exn_code(e)]
+        fail = ('raises:' + type(e).__name__, 'history %r with a live iterator raised %r' % (case, e))
+    return out, fail, 'iops'
+
+
+def random_iops(rng):
+    stream = random_stream(rng, 40)
+    case, i = [], 0
+    while i < len(stream) or rng.random() < 0.4:
+        r = rng.random()
+        if i < len(stream) and r < 0.3:
+            n = rng.randrange(0, 7)
+            chunk = stream[i:i + n]; i += n
+            case += [0, len(chunk)] + chunk
+        elif i < len(stream) and r < 0.45:
+            case += [1, stream[i]]; i += 1
+        elif r < 0.52:
+            case += [2]
+        elif r < 0.58:
+            case += [3]
+        elif r < 0.62:
+            case += [4]
+        elif r < 0.66:
+            case += [5, rng.randrange(0, 3)]
+        elif r < 0.74:
+            case += [6]
+        else:
+            case += [7]
+    return case
+
+
 # ---- ParserQueue ---------------------------------------------------------------------------------------
 def impl_qops(case):
     import mido
@@ -246,7 +356,7 @@ def chunk_jobs(cases, tag, comp, n=None):
     return [(tag, comp, cases[i:i + step]) for i in range(0, len(cases), step)]
 
 
-IMPLS = {'parse': impl_parse, 'tokens': impl_tokens, 'pops': impl_pops, 'qops': impl_qops}
+IMPLS = {'parse': impl_parse, 'tokens': impl_tokens, 'pops': impl_pops, 'qops': impl_qops, 'iops': impl_iops}
 
 
 def job(j):
